@@ -10,10 +10,18 @@ open Cstruct
 /-- what a cstruct object owns -/
 structure CsState where
   endian : Endian
+  pointer : String := "uint64"                       -- name of the configured pointer type
   typedefs : List (String × String)
   consts : List (String × Int)
+  lookups : List (String × List (Int × String)) := []   -- `$name = {...}` tables
   anonCount : Nat
   deriving DecidableEq, Repr
+
+/-- the attributes of a cstruct object that the model carries, under the names the Python class uses; the translator
+    extracts every attribute of the cstruct object that the library writes (`Gen/CsWrites.lean`) and `c14_cs_alphabet`
+    proves that list is covered by this one, i.e. that the operations below are all the ways the library changes a
+    cstruct object -/
+def csAttrs : List String := ["endian", "pointer", "typedefs", "consts", "lookups", "_anonymous_count"]
 
 /-- a value stored in the heap: an integer, or a reference to a mutable list/structure cell -/
 inductive Cell
@@ -40,6 +48,8 @@ inductive Op
   | addType (cs : Nat) (name target : String)
   | addConst (cs : Nat) (name : String) (v : Int)
   | nextAnonymous (cs : Nat)
+  | setPointer (cs : Nat) (ty : String)
+  | addLookup (cs : Nat) (name : String) (table : List (Int × String))
   | setField (inst : Nat) (field : Nat) (v : Cell)        -- x.f = v
   | setItem (loc : Nat) (idx : Nat) (v : Cell)            -- x.a[idx] = v / x.nested.f = v: writes *through a reference*
 
@@ -60,6 +70,12 @@ def apply (s : Store) : Op → Store
     | none => s
   | .nextAnonymous i => match lookupN i s.cs with
     | some c => { s with cs := updateN i { c with anonCount := c.anonCount + 1 } s.cs }
+    | none => s
+  | .setPointer i t => match lookupN i s.cs with
+    | some c => { s with cs := updateN i { c with pointer := t } s.cs }
+    | none => s
+  | .addLookup i n t => match lookupN i s.cs with
+    | some c => { s with cs := updateN i { c with lookups := (n, t) :: c.lookups } s.cs }
     | none => s
   | .setField x f v => match lookupN x s.insts with
     | some fs => { s with insts := updateN x (setNth fs f v) s.insts }
